@@ -6,6 +6,7 @@ import (
 	"fmt"
 	"sort"
 	"strings"
+	"time"
 
 	"github.com/pion/stun/v3/zzverif/sched"
 	"github.com/pion/stun/v3/zzverif/vatomic"
@@ -309,6 +310,21 @@ func selfTest() (programs int, executions int64, failure string) {
 	}}
 	o, n, h = pn.outcomes(0, -1)
 	check("panic", o, n, h, []string{"panic:"}, 1)
+	// 8b. a thread that blocks on something the scheduler does not control (a bare channel) is reported as stuck, and
+	// the next execution starts clean
+	{
+		old := sched.StuckAfter
+		sched.StuckAfter = 1500 * time.Millisecond
+		st := selfProg{name: "stuck", body: func(obs *[]string) {
+			ch := make(chan struct{})
+			sched.Spawn("S", func() { <-ch })
+		}}
+		o, n, h = st.outcomes(0, -1)
+		check("stuck", o, n, h, []string{"stuck:"}, 1)
+		sched.StuckAfter = old
+		o, n, h = pn.outcomes(0, -1)
+		check("panic-after-stuck", o, n, h, []string{"panic:"}, 1)
+	}
 	// 9. replay: a recorded schedule reproduces its observations; a schedule that does not fit is refused
 	programs++
 	if failure == "" {
